@@ -23,7 +23,7 @@ RULE = (
     "gaps - in a quarter of the scripts each in a nested request context of its own, as a composite runs its sub-requests -, service times 1/1024..12.5 s, outcome ok / success:false / ApiError 4xx,5xx / ConnectionTimeout under on-error=continue, "
     "return shape tuple/dict/None, weights, units), target throughput number / '<n> unit/s' / target-interval / none, deterministic or "
     "poisson schedule - or no target at all but a custom (plugin) scheduler with a fixed interval -, per-process perf_counter offset; in a class of cases the shared completion event is set from outside at a drawn "
-    "instant while requests are in flight. Non-trivial = (throttled and at least one request started behind its schedule) "
+    "instant while requests are in flight; in a sixth of the cases the task is a later member of an over-committed parallel element (allocations from the real Allocator: client ids differ from global client indexes); timeout / connection-error outcomes end the last wire request without a response. Non-trivial = (throttled and at least one request started behind its schedule) "
     "or an error outcome was executed or clients >= 2. Distinct = distinct canonical JSON."
 )
 ASSUMPTIONS = [
